@@ -51,7 +51,7 @@ Variable nh nb mx sh : N.
 Hypothesis Hnh : 1 <= nh < 256.
 Hypothesis Hnb : 3 <= nb < 4294967296.
 Hypothesis Hent : nh * nb < zN GenCountMin.MAX_TABLE_ENTRIES.
-Hypothesis Hsh : sh < 65536.
+Hypothesis Hsh : 0 < sh < 65536.
 Hypothesis Hmx : mx < M64.
 Variable bucket : N -> N -> N.
 Hypothesis bucket_range : forall x r, bucket x r < nb.
@@ -109,7 +109,35 @@ Fixpoint has_image (p : prog) : Prop :=
   | PImage _ => True
   end.
 
+(* the correspondingly scaled truth of item y under a program: the same operations applied to y's own
+   weight (updates add, merges add the partner's, halve / decay scale); an image leaf contributes
+   nothing that is known about its items *)
+Fixpoint ptruth (p : prog) (y : N) : N :=
+  match p with
+  | PNew => 0
+  | PUpd p x w => (if y =? x then w else 0) + ptruth p y
+  | PMerge p q => ptruth p y + ptruth q y
+  | PHalve p => ptruth p y / 2
+  | PScale g p => g (ptruth p y)
+  | PRound p => ptruth p y
+  | PImage _ => 0
+  end.
+
 Local Notation LB := (LB nh nb mx sh bucket).
+
+Lemma LB_ext s f g : (forall x, f x = g x) -> LB s f -> LB s g.
+Proof.
+  intros E (Hwf & Hlo & Hhi). split; [exact Hwf|]. split; [|exact Hhi].
+  intros x r Hr. rewrite <- E. apply Hlo; exact Hr.
+Qed.
+
+(* every index update / estimate compute is inside the table (`counts[row * num_buckets + bucket]`) *)
+Lemma lb_indices s f : LB s f ->
+  forall x r, r < nh -> (N.to_nat (r * nb + bucket x r) < length (cm_counts s))%nat.
+Proof.
+  intros ((_ & _ & _ & _ & Hlen) & _) x r Hr. rewrite Hlen.
+  apply (idx_lt nh nb Hnb0 bucket bucket_range); [exact Hr|apply bucket_range].
+Qed.
 
 (* every position of the table is bounded by the total (from the row/bucket form of LB) *)
 Lemma lb_cells s f : LB s f -> forall i, nth i (cm_counts s) 0 <= cm_total s.
@@ -179,63 +207,77 @@ Qed.
    overflow, no merge assertion; the only way not to finish with Ok is that an image leaf is
    rejected by the reader (Err, never Stuck); the result is well-formed *)
 Theorem api_no_stuck_general : forall p, pok p -> pweight p <= mx ->
-  (exists s f, eval p = Ok s /\ LB s f /\ cm_total s <= pweight p /\ wfc mx sh s) \/
+  (exists s, eval p = Ok s /\ LB s (ptruth p) /\ cm_total s <= pweight p /\ wfc mx sh s) \/
   (eval p = Err /\ has_image p).
 Proof.
   assert (Hwfc : forall s f w, LB s f -> cm_total s <= w -> w <= mx -> wfc mx sh s).
   { intros s f w HL H1 H2. apply (lb_wfc s f HL). lia. }
   induction p as [|p IH x w|p IHp q IHq|p IH|g p IH|p IH|bs]; cbn [eval pweight pok has_image]; intros Hok Hfit.
-  - left. rewrite cm_new_fresh by lia. exists (cm_fresh nh nb mx sh), (truth []).
+  - left. rewrite cm_new_fresh by lia. exists (cm_fresh nh nb mx sh).
     pose proof (rep_lb nh nb mx sh Hnb0 bucket bucket_range _ _ (rep_new nh nb mx sh bucket ltac:(lia))) as L0.
+    apply (LB_ext _ _ (ptruth PNew)) in L0; [|intros x; reflexivity].
     split; [reflexivity|]. split; [exact L0|].
     change (cm_total (cm_fresh nh nb mx sh)) with 0.
     split; [apply N.le_refl|]. apply (Hwfc _ _ 0 L0); [apply N.le_refl | apply N.le_0_l].
-  - destruct (IH Hok ltac:(lia)) as [(s & f & E & L & Ht & _)|[E Hi]]; [|right; rewrite E; auto]. left.
+  - destruct (IH Hok ltac:(lia)) as [(s & E & L & Ht & _)|[E Hi]]; [|right; rewrite E; auto]. left.
     rewrite E. cbn [obind].
-    destruct (update_lb nh nb mx sh Hnb0 bucket bucket_range s f x w L ltac:(lia)) as (s1 & E1 & L1).
-    exists s1, (fun y => (if y =? x then w else 0) + f y). split; [exact E1|]. split; [exact L1|].
+    destruct (update_lb nh nb mx sh Hnb0 bucket bucket_range s _ x w L ltac:(lia)) as (s1 & E1 & L1).
+    exists s1. split; [exact E1|]. split; [exact L1|].
     pose proof (update_total _ _ _ _ E1) as T1.
     assert (cm_total s1 <= pweight p + w) by (destruct (w =? 0); lia).
     split; [assumption|]. apply (Hwfc _ _ (pweight p + w) L1); lia.
   - destruct Hok as [Hp Hq].
-    destruct (IHp Hp ltac:(lia)) as [(s & f & E & L & Ht & _)|[E Hi]]; [|right; rewrite E; auto].
-    destruct (IHq Hq ltac:(lia)) as [(o & g & Eo & Lo & Hto & _)|[Eo Hi]]; [|right; rewrite E, Eo; auto].
+    destruct (IHp Hp ltac:(lia)) as [(s & E & L & Ht & _)|[E Hi]]; [|right; rewrite E; auto].
+    destruct (IHq Hq ltac:(lia)) as [(o & Eo & Lo & Hto & _)|[Eo Hi]]; [|right; rewrite E, Eo; auto].
     left. rewrite E, Eo. cbn [obind].
-    destruct (merge_lb s o f g L Lo ltac:(lia)) as (s1 & E1 & L1 & T1).
-    exists s1, (fun x => f x + g x). split; [exact E1|]. split; [exact L1|]. split; [lia|].
+    destruct (merge_lb s o _ _ L Lo ltac:(lia)) as (s1 & E1 & L1 & T1).
+    exists s1. split; [exact E1|]. split; [exact L1|]. split; [lia|].
     apply (Hwfc _ _ (pweight p + pweight q) L1); lia.
-  - destruct (IH Hok Hfit) as [(s & f & E & L & Ht & _)|[E Hi]]; [|right; rewrite E; auto]. left.
+  - destruct (IH Hok Hfit) as [(s & E & L & Ht & _)|[E Hi]]; [|right; rewrite E; auto]. left.
     rewrite E. cbn [obind].
-    pose proof (halve_lb nh nb mx sh Hnb0 bucket bucket_range s f L) as L1.
+    pose proof (halve_lb nh nb mx sh Hnb0 bucket bucket_range s _ L) as L1.
     assert (cm_total (cm_halve s) <= pweight p).
     { unfold cm_halve; cbn [cm_total]. pose proof (N.div_le_upper_bound (cm_total s) 2 (cm_total s)). lia. }
-    eexists _, _. split; [reflexivity|]. split; [exact L1|]. split; [assumption|]. apply (Hwfc _ _ (pweight p) L1); lia.
+    eexists. split; [reflexivity|]. split; [exact L1|]. split; [assumption|]. apply (Hwfc _ _ (pweight p) L1); lia.
   - destruct Hok as (Hm & H0 & Hle & Hp).
-    destruct (IH Hp Hfit) as [(s & f & E & L & Ht & _)|[E Hi]]; [|right; rewrite E; auto]. left.
+    destruct (IH Hp Hfit) as [(s & E & L & Ht & _)|[E Hi]]; [|right; rewrite E; auto]. left.
     rewrite E. cbn [obind].
-    pose proof (scale_lb nh nb mx sh bucket g s f Hm H0 L) as L1.
+    pose proof (scale_lb nh nb mx sh bucket g s _ Hm H0 L) as L1.
     assert (cm_total (cm_scale g s) <= pweight p).
     { unfold cm_scale; cbn [cm_total]. specialize (Hle (cm_total s)). lia. }
-    eexists _, _. split; [reflexivity|]. split; [exact L1|]. split; [assumption|]. apply (Hwfc _ _ (pweight p) L1); lia.
-  - destruct (IH Hok Hfit) as [(s & f & E & L & Ht & W)|[E Hi]]; [|right; rewrite E; auto]. left.
+    eexists. split; [reflexivity|]. split; [exact L1|]. split; [assumption|]. apply (Hwfc _ _ (pweight p) L1); lia.
+  - destruct (IH Hok Hfit) as [(s & E & L & Ht & W)|[E Hi]]; [|right; rewrite E; auto]. left.
     rewrite E. cbn [obind].
-    rewrite (roundtrip mx sh s W). exists s, f. split; [reflexivity|]. split; [exact L|]. split; [exact Ht|exact W].
+    rewrite (roundtrip mx sh s W). exists s. split; [reflexivity|]. split; [exact L|]. split; [exact Ht|exact W].
   - pose proof (deserialize_never_stuck mx sh bs) as Hns.
     destruct (cm_deserialize mx sh bs) as [s| |] eqn:E; [left|right; auto|congruence].
     destruct (Hok s eq_refl) as [En Eb]. destruct (deserialize_lb bs s E En Eb) as [L Ht].
-    exists s, (fun _ => 0). split; [reflexivity|]. split; [exact L|]. split; [apply N.le_refl|].
+    exists s. split; [reflexivity|]. split; [exact L|]. split; [apply N.le_refl|].
     apply (lb_wfc s _ L Ht).
 Qed.
 
+(* ... with every table index inside the table *)
 Theorem api_no_stuck : forall p, pok p -> pweight p <= mx -> ~ has_image p ->
-  exists s f, eval p = Ok s /\ LB s f /\ cm_total s <= pweight p /\ wfc mx sh s.
+  exists s, eval p = Ok s /\ LB s (ptruth p) /\ cm_total s <= pweight p /\ wfc mx sh s /\
+            (forall x r, r < nh -> (N.to_nat (r * nb + bucket x r) < length (cm_counts s))%nat).
 Proof.
-  intros p Hok Hfit Hni. destruct (api_no_stuck_general p Hok Hfit) as [H|[_ Hi]]; [exact H|contradiction].
+  intros p Hok Hfit Hni. destruct (api_no_stuck_general p Hok Hfit) as [(s & E & L & Ht & W)|[_ Hi]]; [|contradiction].
+  exists s. split; [exact E|]. split; [exact L|]. split; [exact Ht|]. split; [exact W|]. apply (lb_indices s _ L).
 Qed.
 
 Theorem api_never_stuck : forall p, pok p -> pweight p <= mx -> eval p <> Stuck.
 Proof.
-  intros p Hok Hfit. destruct (api_no_stuck_general p Hok Hfit) as [(s & f & E & _)|[E _]]; rewrite E; discriminate.
+  intros p Hok Hfit. destruct (api_no_stuck_general p Hok Hfit) as [(s & E & _)|[E _]]; rewrite E; discriminate.
+Qed.
+
+(* C08 for programs: merges interleaved with halve / decay keep the one-sided guarantee: for every item,
+   its correspondingly scaled true weight <= estimate <= total weight *)
+Theorem api_one_sided : forall p s x, pok p -> pweight p <= mx -> eval p = Ok s ->
+  ptruth p x <= cm_estimate s (bk_of nh bucket x) /\ cm_estimate s (bk_of nh bucket x) <= cm_total s.
+Proof.
+  intros p s x Hok Hfit E. destruct (api_no_stuck_general p Hok Hfit) as [(s' & E' & L & Ht & W)|[E' _]]; [|congruence].
+  rewrite E in E'. inversion E'; subst s'.
+  apply (estimate_lb nh nb mx sh Hnb0 bucket bucket_range s _ x L ltac:(lia) ltac:(lia)).
 Qed.
 
 (* the queries are total functions of the state; on the result of a valid program they are
@@ -245,9 +287,9 @@ Theorem api_queries_ordered : forall p s x err, pok p -> pweight p <= mx -> eval
   cm_lower_bound s (bk_of nh bucket x) <= cm_upper_bound s (bk_of nh bucket x) err /\
   cm_upper_bound s (bk_of nh bucket x) err <= mx.
 Proof.
-  intros p s x err Hok Hfit E. destruct (api_no_stuck_general p Hok Hfit) as [(s' & f & E' & L & Ht & W)|[E' _]]; [|congruence].
+  intros p s x err Hok Hfit E. destruct (api_no_stuck_general p Hok Hfit) as [(s' & E' & L & Ht & W)|[E' _]]; [|congruence].
   rewrite E in E'. inversion E'; subst s'.
-  pose proof (estimate_lb nh nb mx sh Hnb0 bucket bucket_range s f x L ltac:(lia) ltac:(lia)) as [_ H2].
+  pose proof (estimate_lb nh nb mx sh Hnb0 bucket bucket_range s _ x L ltac:(lia) ltac:(lia)) as [_ H2].
   pose proof (upper_bound_sound s (bk_of nh bucket x) err) as (U1 & U2 & _).
   destruct L as ((_ & _ & Em & _) & _). rewrite Em in U2. unfold cm_lower_bound in *. repeat split; auto.
 Qed.
